@@ -19,12 +19,13 @@ func init() {
 			"(R1) for every exported operation with an entity-handle parameter, every use of that handle's id as an index into the entity index, the target flags or the pool, in the operation or in any callee that receives the handle, is dominated by a liveness test of that same handle (documented ...Unchecked accessors are listed as exemptions); " +
 			"(R2) the lock test comes first (C07/R1); (R3) inside operations reachable from those entry points no path leads from a store into row/pool/entity-index/target-flag state to an explicit library panic, except the internal assertions listed with reasons; " +
 			"(R4) the graph search tests a component's mask bit (panicking on duplicate/missing) before flipping it. " +
-			"Not decided: full state equality after recover; batch operations.",
+			"(R5 = C04/R6) a dead relation target is rejected: relation targets are compared as whole entities and the per-target table lookup returns a table only after it matched the requested relations, so that an unknown or recycled target falls through to the validating table creation. Not decided: full state equality after recover; batch operations.",
 		TrustedBase: []string{"go/types, go/cfg", "anchor table (DESIGN.md §2.3)", "role derivation: alive-test = bool function comparing Entity.gen with pool memory without stores"},
 		Rules: []Rule{
 			{ID: "C10/R1", Run: c10r1, Min: 1},
 			{ID: "C10/R3", Run: c10r3, Min: 1},
 			{ID: "C10/R4", Run: c10r4, Min: 1},
+			{ID: "C04/R6", Run: c04r6, Min: 1},
 		},
 	})
 }
